@@ -145,6 +145,7 @@ def decide(pid, tier, seed, t0, cfg, claimed, deps, functions, unsupported, assu
     covers = [o for o in claimed if o.kind == 'cover']
     n_dis = 0
     refuted_names = set()
+    stale_refuted = []
     for ob in proofs:
         st = ob.result['status']
         if st == 'unsat':
@@ -154,8 +155,14 @@ def decide(pid, tier, seed, t0, cfg, claimed, deps, functions, unsupported, assu
             undecided.append((ob, 'function under contract is missing or renamed'))
             continue
         if ob.meta.get('stale_contract'):
-            undecided.append((ob, 'the sidecar contract of %s names %s, which the function no longer has (restructured source): contract out of date, nothing is concluded'
-                              % (ob.func, ', '.join(ob.meta['stale_contract'][:4]))))
+            # the contract no longer matches the function's structure: a refutation is trusted only if it replays on the real code (native replay / falsification search
+            # with the executable form of the property); otherwise nothing is concluded
+            why = ('the sidecar contract of %s names %s, which the function no longer has (restructured source): contract out of date'
+                   % (ob.func, ', '.join(ob.meta['stale_contract'][:4])))
+            if st == 'sat' and not ob.meta.get('untracked'):
+                stale_refuted.append((ob, why))
+            else:
+                undecided.append((ob, why + ', nothing is concluded'))
             continue
         if ob.meta.get('untracked'):
             # the clause mentions a value the engine could not track on this path (e.g. a renamed local): never a violation
@@ -173,6 +180,20 @@ def decide(pid, tier, seed, t0, cfg, claimed, deps, functions, unsupported, assu
         else:
             undecided.append((ob, 'solver answered %s (%s)' % (st, ob.result.get('reason', ''))))
     refuted = [o for o in proofs if o.name in refuted_names]
+    if stale_refuted:
+        from pyvc import replay as R
+        os.makedirs(os.path.join(VERIF, 'replays', pid), exist_ok=True)
+        found = False
+        for ob, why in stale_refuted[:6]:
+            rep = R.make_replay(pid, ob, root, repo, tier)
+            if rep.get('native', {}).get('reproduced'):
+                ob.result['stale_but_replayed'] = why
+                refuted.append(ob)
+                found = True
+            else:
+                undecided.append((ob, why + '; the refutation does not replay on the real code, nothing is concluded'))
+        for ob, why in stale_refuted[6:]:
+            undecided.append((ob, why + ('; not replayed separately' if found else ', nothing is concluded')))
     if os.environ.get('PYVC_BASELINE_OUT'):
         # maintainer command tools/gen_baseline.py: dump name -> (verdict, hash of the function's source); never set by a registered check
         os.makedirs(os.environ['PYVC_BASELINE_OUT'], exist_ok=True)
